@@ -4,7 +4,9 @@
 (* objects hash equally.                                                   *)
 (*                                                                         *)
 (* Universe.  Terms 1..4 = T1, T1' (T1's name, another label), T1'' (T1's  *)
-(* label, another name), T2; values 1..3 = a, b, c; universe tags 1..12 =  *)
+(* label, another name), T2, without URI; terms 5..7 with a URI (equal URI *)
+(* and different name; equal name and different URI);                      *)
+(* values 1..3 = a, b, c; universe tags 1..15 =                            *)
 (* UTag[u] = <<term, value>>.  Two tags are equal iff they are the same    *)
 (* universe tag (the binder builds them from this table, always as fresh   *)
 (* objects).  Python indices are 0-based: vocabulary position k <-> k - 1. *)
@@ -27,10 +29,14 @@
 (***************************************************************************)
 EXTENDS Lattice
 
-TermName  == <<"n1", "n1", "n2", "n3">>
-TermLabel == <<"l1", "l2", "l1", "l3">>
+\* terms 5..7 carry a URI: T5 and T6 share the URI under different names, T7 has T5's name and label under another URI
+TermName  == <<"n1", "n1", "n2", "n3", "n4", "n5", "n4">>
+TermLabel == <<"l1", "l2", "l1", "l3", "l4", "l4", "l4">>
+TermUri   == <<"", "", "", "", "u1", "u1", "u2">>
 UTag == << <<1, 1>>, <<1, 2>>, <<2, 1>>, <<3, 1>>, <<4, 1>>, <<4, 2>>,
-           <<2, 2>>, <<3, 2>>, <<1, 3>>, <<2, 3>>, <<3, 3>>, <<4, 3>> >>
+           <<2, 2>>, <<3, 2>>, <<1, 3>>, <<2, 3>>, <<3, 3>>, <<4, 3>>,
+           <<5, 1>>, <<6, 1>>, <<7, 1>> >>          \* 13..15: tags on the URI-bearing terms
+UriTags == {1, 13, 14, 15}
 NU == Len(UTag)
 
 (* ------------------------------ Req: encoding ------------------------------ *)
@@ -59,7 +65,7 @@ LawOOV(v, ts)    == /\ Classify(v, Filtered(v, ts)) = Classify(v, ts)
 LawOOVPred(v, ts, sc) == \A k \in DOMAIN v : PredAllowed(v, Filtered(v, ts), FilteredSc(v, ts, sc), k) = PredAllowed(v, ts, sc, k)
 LawClassifyIsHit(v, ts) == Classify(v, ts) = <<>> \/ Multilabel(v, ts)[Classify(v, ts)[1] + 1] = 1
 
-EncClauses == {"EncodeIffEqual", "DecodeEncodeIdentity", "ClassifyFirstHit", "MultilabelIndicator",
+EncClauses == {"EncodeIffEqual", "EncodeIffObservedEqual", "DecodeEncodeIdentity", "ClassifyFirstHit", "MultilabelIndicator",
                "PredictionScores", "OutOfVocabularyNoInfluence"}
 
 (***************************************************************************)
@@ -74,6 +80,16 @@ EncClauses == {"EncodeIffEqual", "DecodeEncodeIdentity", "ClassifyFirstHit", "Mu
 EncClauseHolds(cl, c, r) ==
     LET v == c.vocab  ts == c.tags IN
     CASE cl = "EncodeIffEqual"       -> Len(r.enc) = NU /\ \A u \in 1..NU : r.enc[u] = Encode(v, u)
+      \* the same clause on OBSERVED equality: qeq[u][k] = (query tag u == vocabulary tag k), veq[k][l] likewise inside the
+      \* vocabulary.  For a vocabulary of (observably) distinct tags a tag goes to index i iff it == the i-th tag.
+      [] cl = "EncodeIffObservedEqual" ->
+             /\ Len(r.enc) = NU /\ Len(r.qeq) = NU /\ Len(r.veq) = Len(v)
+             /\ \A u \in 1..NU : Len(r.qeq[u]) = Len(v)
+             /\ \A k \in DOMAIN v : Len(r.veq[k]) = Len(v)
+             /\ (\A k, l \in DOMAIN v : k # l => ~r.veq[k][l]) =>
+                   \A u \in 1..NU :
+                      LET hits == {k \in DOMAIN v : r.qeq[u][k]}
+                      IN  Cardinality(hits) <= 1 => r.enc[u] = (IF hits = {} THEN <<>> ELSE <<SetMin(hits) - 1>>)
       [] cl = "DecodeEncodeIdentity" -> /\ Len(r.dec) = Len(v) /\ Len(r.encdec) = Len(v)
                                         /\ \A k \in DOMAIN v : r.dec[k] = v[k] /\ r.encdec[k] = <<k - 1>>
       [] cl = "ClassifyFirstHit"     -> r.cls = Classify(v, ts)
@@ -90,9 +106,10 @@ EncClauseHolds(cl, c, r) ==
 ClassNames == <<"Term", "Tag", "Feature", "Note", "SoundEvent", "SoundEventAnnotation",
                 "SoundEventPrediction", "ClipPrediction">>
 \* sizes of the field domains the binder builds objects from (field meanings: see checks/c19.py FIELDS)
-FieldDom == << <<2, 2, 2, 2>>,    \* Term: name, label, definition, an extra attribute present or not
-               <<4, 2>>,          \* Tag: term (T1, T1', T1'', T2), value
-               <<4, 3>>,          \* Feature: term, value (0.0, -0.0, 0.5)
+FieldDom == << <<2, 2, 2, 2, 3, 2>>,   \* Term: name, label, definition, an extra attribute present or not,
+                                       \*       uri (none, u1, u2), comment (none, given)
+               <<7, 2>>,          \* Tag: term (T1, T1', T1'', T2, T5, T6, T7), value
+               <<7, 3>>,          \* Feature: term, value (0.0, -0.0, 0.5)
                <<2, 2, 2, 2>>,    \* Note: uuid, message, is_issue, created_on
                <<2, 2, 2, 2>>,    \* SoundEvent: uuid, geometry, recording, features
                <<2, 2, 2, 2>>,    \* SoundEventAnnotation: uuid, sound_event, tags, notes
@@ -105,6 +122,13 @@ Objects(cls) == Vectors(FieldDom[cls], 1)
 \* model equality = all declared fields equal (Feature value: 0.0 and -0.0 are the same number)
 Norm(cls, x) == IF cls = 3 /\ x[2] = 2 THEN <<x[1], 1>> ELSE x
 ModelEq(cls, x, y) == Norm(cls, x) = Norm(cls, y)
+DiffCount(x, y) == Cardinality({f \in DOMAIN x : x[f] # y[f]})
+\* control "uri": a Term.__eq__ that takes two terms with the same (present) URI for equal, whatever their names
+UriOf(cls, x) == IF cls = 1 THEN (IF x[5] = 1 THEN "" ELSE IF x[5] = 2 THEN "u1" ELSE "u2") ELSE TermUri[x[1]]
+EqUnder(mode, cls, x, y) ==
+    IF mode = "uri" /\ cls <= 3 /\ UriOf(cls, x) # "" /\ UriOf(cls, x) = UriOf(cls, y)
+    THEN (cls = 1 \/ Norm(cls, x)[2] = Norm(cls, y)[2])
+    ELSE ModelEq(cls, x, y)
 \* the projection the code hashes ("code"), and two variants used as controls of the law below
 HashKey(mode, cls, x, who) ==
     CASE mode = "identity" -> <<who>>                                   \* id(self): never equal for two objects
@@ -140,7 +164,7 @@ Prov(m, f) == [mode |-> m, f |-> f]
 Fresh == Prov("fresh", 0)
 Frozen(cls) == cls = 1                                   \* Term: ConfigDict(frozen=True)
 \* Term's 4th field (an extra attribute) can be added by an update but not removed, so it is never the donor field
-DonorFields(cls) == IF cls = 1 THEN 1..3 ELSE DOMAIN FieldDom[cls]
+DonorFields(cls) == IF cls = 1 THEN {1, 2, 3, 5, 6} ELSE DOMAIN FieldDom[cls]
 Explicit == Prov("explicit_defaults", 0)
 Provs(cls) == {Fresh, Prov("deep_copy", 0), Prov("revalidate", 0), Explicit} \cup
               {Prov(m, f) : m \in {"copy_update"} \cup (IF Frozen(cls) THEN {} ELSE {"assign"}), f \in DonorFields(cls)}
